@@ -1,4 +1,5 @@
 import OlVerif.Props.C04
+import OlVerif.Unparse.OneLine
 namespace OlVerif.C02
 
 /-- `str.replace("\n", "")` as a function on code points -/
@@ -20,5 +21,53 @@ theorem one_line_std (s : List Nat) : ∀ c ∈ dropNewlines s, c ≠ 10 := by
       rcases ha with rfl | ha
       · assumption
       · exact ih a ha
+
+
+/-- **The custom unparser never writes a line break.**  For every expression tree whose leaves are
+    clean (`okE`: identifiers and CPython's `repr` of numbers and bytes contain no LF/CR - text the
+    unparser copies, not text it makes - and strings hold code points below 0x110000), every token
+    of `expr_unparse`'s output is free of LF and CR: the escapes of string bodies (C04), the doubled
+    braces of f-string parts, the operator spellings regenerated from the code, the punctuation. -/
+theorem one_line_oneliner (e : Expr) (h : okE e) : ∀ t ∈ unparseTop e, ∀ c ∈ t.text, c ≠ 10 ∧ c ≠ 13 :=
+  fun t ht => (cpsClean_iff _).mp (clean_unparseTop e h t ht)
+
+/-- **Everything the unparser module can write of its own is free of line breaks**: every string
+    constant of `expr_unparse.py` (docstrings excluded) and every entry of its operator tables,
+    regenerated from the source on every run - the separators and blanks that the token model
+    leaves out are in this table. -/
+theorem own_text_one_line : ∀ s ∈ unparserTexts, StrClean s := by decide +kernel
+
+/-- integer literals are clean leaves, whatever their size or sign -/
+theorem int_leaf_clean (n : Int) : okC (.int n) := by
+  have digits : ∀ m : Nat, StrClean (toString m) := by
+    intro m
+    refine (cpsClean_iff _).mpr ?_
+    intro c hc
+    simp only [List.mem_map] at hc
+    obtain ⟨ch, hch, rfl⟩ := hc
+    rw [Nat.toString_eq_repr, Nat.toList_repr] at hch
+    have := Nat.isDigit_of_mem_toDigits (by decide) (by decide) hch
+    simp only [Char.isDigit, Bool.and_eq_true, decide_eq_true_eq] at this
+    have h1 : 48 ≤ ch.toNat := by have := this.1; exact this
+    constructor <;> omega
+  intro q
+  simp only [unparseConst]
+  split
+  · rename_i hneg
+    obtain ⟨m, hm⟩ : ∃ m : Nat, -n = (m : Int) := ⟨(-n).toNat, by omega⟩
+    rw [hm]
+    exact clean_cons (op_clean _ (by decide)) (clean_single (digits m))
+  · rename_i hpos
+    obtain ⟨m, hm⟩ : ∃ m : Nat, n = (m : Int) := ⟨n.toNat, by omega⟩
+    rw [hm]
+    exact clean_single (digits m)
+
+/-- non-vacuity: an f-string holding a line feed, a brace and a quote, an attribute of a negative
+    number, a lambda with defaults and a comprehension all meet the hypothesis -/
+example : okE (.joinedStr [.const (.str [10, 123, 39, 13]),
+              .formattedValue (.attribute (.const (.int (-3))) "real") (-1) none]) := by
+  refine ⟨?_, ⟨⟨int_leaf_clean _, by decide⟩, trivial, ?_⟩, trivial⟩
+  · intro c hc; simp at hc; omega
+  · simp [convToks]; exact clean_nil
 
 end OlVerif.C02
